@@ -4,6 +4,10 @@
 -/
 import Verif.Lemmas.SkipBinCor
 import Verif.Lemmas.SkipTplBytes
+import Verif.Lemmas.SkipBRInst
+import Verif.Lemmas.SkipBRBytes
+import Verif.Lemmas.SkipTplBufiox
+import Verif.Lemmas.SkipTplReader
 namespace Verif.C02
 
 /-- For every well-formed encoded value `v` of any type (nesting ≤ 64, i.e. up to 63 container
@@ -30,5 +34,148 @@ theorem bytesDec_exact (v rest : Bytes) (t : UInt8) (h : refLen 64 t v = some v.
 example : bytesDecNext ⟨[8, 11, 0,0,0,1, 0,0,0,7, 0,0,0,1, 65] ++ [1, 2], 0⟩ TT.MAP
     = .ok ([8, 11, 0,0,0,1, 0,0,0,7, 0,0,0,1, 65], ⟨[1, 2], 0⟩) :=
   bytesDec_exact _ _ _ (by decide)
+
+/-! ## the three stream skippers
+
+  Reader hypotheses (all from C04, Lemmas/Reader*.lean, restated in Lemmas/SkipBRInst.lean):
+    `RdOK r`  = C04's invariant `Inv r` ∧ `ri + |remaining r| ≤ 2^60`            (sizes in range)
+    `r.Live`  = the source's stream is exhausted, or no error has been seen and the rest of the
+                script is `Steady` (error-free until the last byte is out — the last byte may
+                arrive together with an error such as io.EOF —, zero-byte reads in runs shorter
+                than the empty-read limit, every other entry ≥ 1 byte): ANY fragmentation.
+    `remaining r` = buffered-unread ++ unread source stream (what the reader still owes).
+  Plain io.Reader: `Delivers script |stream|` (Lemmas/SkipTplReader.lean): all bytes come out before any
+  error, except that the very last byte may arrive together with one; implied by `Steady`. -/
+
+/-- BufferReader.Skip on a bytes-backed reader (`NewBytesReader(buf)`, any capacity ≥ len): for every
+    well-formed value `v` (nesting ≤ 64) followed by arbitrary bytes it succeeds, the reader then
+    owes exactly `rest`, and ReadLen is exactly the encoded length.  No size hypothesis. -/
+theorem skipBR_exact_bytes (v rest : Bytes) (t : UInt8) (cap : Nat) (hcap : (v ++ rest).length ≤ cap)
+    (h : refLen 64 t v = some v.length) :
+    ∃ r', skipBR t (Rd.newBytes (v ++ rest) cap) = .ok ((), r') ∧ r'.remaining = rest ∧
+      r'.readLen = v.length := by
+  have h1 := refLen_le_refBR 64 t _ _ (refLen_append h rest)
+  have h2 := skipBR_dry (Rd.newBytes (v ++ rest) cap) t (newBytes_dry _ _)
+  obtain ⟨hr, hri⟩ := newBytes_remaining (v ++ rest) cap hcap
+  rw [hr, defaultRecursionDepth_eq, h1] at h2
+  obtain ⟨r', hx, hrem, hlen, _⟩ := h2
+  exact ⟨r', hx, by simpa using hrem, by simpa [Rd.readLen, hri] using hlen⟩
+
+/-- BufferReader.Skip on the buffered reader in ANY reachable state over ANY live source (any
+    fragmentation of the stream, final data together with io.EOF included): if what the reader still
+    owes starts with a well-formed value `v` (nesting ≤ 64), Skip succeeds, consumes exactly `v`
+    (the reader then owes exactly `rest`), ReadLen grows by exactly `|v|`; the state stays good and
+    live, so the statement applies to the next value again. -/
+theorem skipBR_exact_stream (r : Rd) (v rest : Bytes) (t : UInt8) (hok : RdOK r) (hl : r.Live)
+    (hrem : r.remaining = v ++ rest) (h : refLen 64 t v = some v.length) :
+    ∃ r', skipBR t r = .ok ((), r') ∧ r'.remaining = rest ∧ r'.readLen = r.readLen + v.length ∧
+      RdOK r' ∧ r'.Live := by
+  have h1 := refLen_le_refBR 64 t _ _ (refLen_append h rest)
+  have h2 := skipBR_live r t hok hl
+  rw [hrem, defaultRecursionDepth_eq, h1] at h2
+  obtain ⟨r', hx, hrem', hlen, hok', hl'⟩ := h2
+  exact ⟨r', hx, by simpa using hrem', hlen, hok', hl'⟩
+
+/-- … in particular for a fresh `NewDefaultReader(src)` over every stream `v ++ rest` (≤ 2^60 bytes)
+    and every `Steady` script -/
+theorem skipBR_exact_fresh (v rest : Bytes) (script : List Resp) (t : UInt8)
+    (hsz : (v ++ rest).length ≤ sizeBound)
+    (hst : Steady Facts.maxConsecutiveEmptyReads script (v ++ rest).length 0 = true)
+    (h : refLen 64 t v = some v.length) :
+    ∃ r', skipBR t (Rd.newDefault ⟨v ++ rest, script⟩) = .ok ((), r') ∧ r'.remaining = rest ∧
+      r'.readLen = v.length := by
+  obtain ⟨r', hx, hrem, hlen, _⟩ := skipBR_exact_stream (Rd.newDefault ⟨v ++ rest, script⟩) v rest t
+    (newDefault_ok _ _ hsz) (live_newDefault _ _ hst) (newDefault_remaining _ _).1 h
+  exact ⟨r', hx, hrem, by simpa [Rd.readLen, Rd.newDefault] using hlen⟩
+
+/-- SkipDecoder (over bufiox.Reader) on a bytes-backed reader: returns exactly the bytes of `v`, the
+    reader then owes exactly `rest`, ReadLen = |v|.  No size hypothesis. -/
+theorem bufioxDec_exact_bytes (v rest : Bytes) (t : UInt8) (cap : Nat) (hcap : (v ++ rest).length ≤ cap)
+    (h : refLen 64 t v = some v.length) :
+    ∃ r', bufioxDecNext (Rd.newBytes (v ++ rest) cap) t = .ok (v, r') ∧ r'.remaining = rest ∧
+      r'.readLen = v.length := by
+  have h1 := refLen_le_refTpl 64 t _ _ (refLen_append h rest)
+  have h2 := bufioxDecNext_dry (Rd.newBytes (v ++ rest) cap) t (newBytes_dry _ _)
+  obtain ⟨hr, hri⟩ := newBytes_remaining (v ++ rest) cap hcap
+  rw [hr, defaultRecursionDepth_eq, h1] at h2
+  obtain ⟨r', hx, hrem, hlen, _⟩ := h2
+  exact ⟨r', by simpa using hx, by simpa using hrem, by simpa [Rd.readLen, hri] using hlen⟩
+
+/-- SkipDecoder (over bufiox.Reader) in any reachable reader state over any live source: returns
+    exactly `v` (the Peek-accumulated window), consumes exactly `v`, ReadLen += |v| -/
+theorem bufioxDec_exact_stream (r : Rd) (v rest : Bytes) (t : UInt8) (hok : RdOK r) (hl : r.Live)
+    (hrem : r.remaining = v ++ rest) (h : refLen 64 t v = some v.length) :
+    ∃ r', bufioxDecNext r t = .ok (v, r') ∧ r'.remaining = rest ∧
+      r'.readLen = r.readLen + v.length ∧ RdOK r' ∧ r'.Live := by
+  have h1 := refLen_le_refTpl 64 t _ _ (refLen_append h rest)
+  have h2 := bufioxDecNext_exact r t hok hl
+  rw [hrem, defaultRecursionDepth_eq, h1] at h2
+  obtain ⟨r', hx, hrem', hlen, hok', hl'⟩ := h2
+  exact ⟨r', by simpa using hx, by simpa using hrem', hlen, hok', hl'⟩
+
+/-- ReaderSkipDecoder over a plain io.Reader: for EVERY script that delivers the stream (any
+    fragmentation: 1-byte reads, short reads, zero-byte reads; the last byte of the stream may
+    arrive together with io.EOF or any other error) the decoder returns exactly `v`, and the
+    source has been read exactly `|v|` bytes: its unread stream is exactly `rest` — nothing beyond
+    the value is consumed.  The source still delivers, so the statement applies again. -/
+theorem readerDec_exact (src : Src) (v rest : Bytes) (t : UInt8)
+    (hd : Delivers src.script src.stream.length = true) (hs : src.stream = v ++ rest)
+    (h : refLen 64 t v = some v.length) :
+    ∃ src', readerDecNext src t = .ok (v, src') ∧ src'.stream = rest ∧
+      Delivers src'.script src'.stream.length = true := by
+  have h1 := refLen_le_refTpl 64 t _ _ (refLen_append h rest)
+  have h2 := readerDecNext_exact src t hd
+  rw [hs, defaultRecursionDepth_eq, h1] at h2
+  obtain ⟨src', hx, hrem, hd'⟩ := h2
+  exact ⟨src', by simpa using hx, by simpa using hrem, hd'⟩
+
+/-- C04's `Steady` scripts deliver (so every fragmentation admitted for the buffered reader is
+    admitted for the plain reader too) -/
+theorem steady_delivers (script : List Resp) (slen z : Nat)
+    (h : Steady Facts.maxConsecutiveEmptyReads script slen z = true) : Delivers script slen = true :=
+  Verif.steady_delivers _ script slen z h
+
+/-- the io.EOF-with-final-data clause, spelled out: the value is the whole stream and its last byte
+    arrives together with io.EOF — the decoder returns the value, not io.EOF (defect F9) -/
+theorem readerDec_exact_data_with_eof (v : Bytes) (x : UInt8) (t : UInt8) (pre : List Resp)
+    (hd : Delivers (pre ++ [⟨1, some .eof⟩]) (v ++ [x]).length = true)
+    (h : refLen 64 t (v ++ [x]) = some (v ++ [x]).length) :
+    ∃ src', readerDecNext ⟨v ++ [x], pre ++ [⟨1, some .eof⟩]⟩ t = .ok (v ++ [x], src') ∧ src'.stream = [] := by
+  obtain ⟨src', hx, hrem, _⟩ := readerDec_exact ⟨v ++ [x], pre ++ [⟨1, some .eof⟩]⟩ (v ++ [x]) [] t hd
+    (by simp) h
+  exact ⟨src', hx, hrem⟩
+
+/-! ### non-vacuity: map<i32,string>{7:"A"} followed by two bytes, delivered byte by byte with
+    zero-byte reads in between and the last byte together with io.EOF -/
+
+def exScript : List Resp :=
+  [⟨1, none⟩, ⟨0, none⟩, ⟨1, none⟩, ⟨1, none⟩, ⟨1, none⟩, ⟨0, none⟩, ⟨0, none⟩, ⟨1, none⟩, ⟨1, none⟩,
+   ⟨1, none⟩, ⟨1, none⟩, ⟨1, none⟩, ⟨1, none⟩, ⟨1, none⟩, ⟨1, none⟩, ⟨1, none⟩, ⟨1, none⟩, ⟨1, none⟩,
+   ⟨1, none⟩, ⟨1, some .eof⟩]
+
+example : Steady Facts.maxConsecutiveEmptyReads exScript 17 0 = true := by decide
+example : Delivers exScript 17 = true := by decide
+
+example : ∃ r', skipBR TT.MAP (Rd.newDefault ⟨[8, 11, 0,0,0,1, 0,0,0,7, 0,0,0,1, 65] ++ [1, 2], exScript⟩)
+    = .ok ((), r') ∧ r'.remaining = [1, 2] ∧ r'.readLen = 15 :=
+  skipBR_exact_fresh [8, 11, 0,0,0,1, 0,0,0,7, 0,0,0,1, 65] [1, 2] exScript TT.MAP (by decide) (by decide)
+    (by decide)
+
+example : ∃ r', skipBR TT.MAP (Rd.newBytes ([8, 11, 0,0,0,1, 0,0,0,7, 0,0,0,1, 65] ++ [1, 2]) 17)
+    = .ok ((), r') ∧ r'.remaining = [1, 2] ∧ r'.readLen = 15 :=
+  skipBR_exact_bytes _ _ _ _ (by decide) (by decide)
+
+example : ∃ r', bufioxDecNext (Rd.newBytes ([8, 11, 0,0,0,1, 0,0,0,7, 0,0,0,1, 65] ++ [1, 2]) 32) TT.MAP
+    = .ok ([8, 11, 0,0,0,1, 0,0,0,7, 0,0,0,1, 65], r') ∧ r'.remaining = [1, 2] ∧ r'.readLen = 15 :=
+  bufioxDec_exact_bytes _ _ _ _ (by decide) (by decide)
+
+example : ∃ src', readerDecNext ⟨[8, 11, 0,0,0,1, 0,0,0,7, 0,0,0,1, 65] ++ [1, 2], exScript⟩ TT.MAP
+    = .ok ([8, 11, 0,0,0,1, 0,0,0,7, 0,0,0,1, 65], src') ∧ src'.stream = [1, 2] ∧
+      Delivers src'.script src'.stream.length = true :=
+  readerDec_exact ⟨_, exScript⟩ _ [1, 2] TT.MAP (by decide) rfl (by decide)
+
+/-- the F9 witness evaluated on the model: STRING "A" whose last byte arrives with io.EOF -/
+example : readerDecNext ⟨[0,0,0,1, 65], [⟨4, none⟩, ⟨1, some .eof⟩]⟩ TT.STRING
+    = .ok ([0,0,0,1, 65], ⟨[], []⟩) := by decide
 
 end Verif.C02
